@@ -158,7 +158,10 @@ def server_scenario_st(tier):
         # the client manager: the default one, or a message-queue manager
         # whose publications are part of what is compared (nothing arrives
         # on its channel)
-        'manager': st.sampled_from(['plain', 'plain', 'pubsub']),
+        # ('pubsub_wo': the same, created with write_only=True - it still
+        # serves the clients of its own host)
+        'manager': st.sampled_from(['plain', 'plain', 'pubsub',
+                                    'pubsub_wo']),
         'decisions': st.lists(decision, min_size=1, max_size=5),
         # namespaces whose disconnect handler fails (an application error)
         # when the client or its transport ended the connection
@@ -195,7 +198,7 @@ def run_server_scenario(case, aio, coro=False, setup=None, n_transports=4):
     import socketio
     extra = {}
     published = []
-    if case.get('manager') == 'pubsub':
+    if case.get('manager') in ('pubsub', 'pubsub_wo'):
         from socketio.async_pubsub_manager import AsyncPubSubManager
         from socketio.pubsub_manager import PubSubManager
         base = AsyncPubSubManager if aio else PubSubManager
@@ -210,7 +213,8 @@ def run_server_scenario(case, aio, coro=False, setup=None, n_transports=4):
             else:
                 def _publish(self, data):
                     published.append(data)
-        extra['client_manager'] = RecordingManager()
+        extra['client_manager'] = RecordingManager(
+            write_only=case['manager'] == 'pubsub_wo')
     w = World(aio=aio, async_handlers=case['async_handlers'],
               always_connect=case['always_connect'],
               namespaces=SERVED, **extra)
